@@ -257,7 +257,9 @@ func Run(s *simrt.Sim, a *harness.Args, r *harness.Result) {
 				simrt.Harnessf("generated header does not parse: %v", err)
 			}
 			meta := &module.MsgMetadata{ID: m.id, OriginalFrom: m.from, SMTPOpts: smtp.MailOptions{UTF8: m.utf8}}
-			d, err := pipe.Start(ctx, meta, m.from)
+			// like the SMTP endpoint, hand the pipeline the sender with a
+			// case-folded U-label domain whatever the client sent
+			d, err := pipe.Start(ctx, meta, cleanDomain(m.from))
 			if err != nil {
 				continue
 			}
